@@ -48,7 +48,7 @@ class C20:
     level_text = ("Complete enumeration of all index sequences of length <= 6 over {0..4} for the sort and of (a seeded share of / all) ordered pairs of "
                   "sequences of length <= 4 over {0..3} for the predicate, plus seeded long sequences with large values.")
     level_note = "trusted: g++ 12 evaluating the templates, Python's sorted() and Counter as oracles"
-    rule = ("sort: all 19531 index sequences of length <= 6 over {0..4} (both tiers) + seeded random sequences of length <= 24 with values up to 2^40; the "
+    rule = ("sort: all 19531 index sequences of length <= 6 over {0..4} (both tiers) + seeded random sequences of length <= 24 with values up to 2^64-1 (SIZE_MAX, 2^63, 2^32 and neighbours planted); the "
             "printed ::type must equal Python's sorted(). predicate: ordered pairs of the 341 sequences of length <= 4 over {0..3}: a seeded 10% "
             "(quick) / all 116281 (thorough), plus seeded random pairs (permuted copies, copies with one element changed); value must equal multiset "
             "equality. non-trivial = sequence with a repeated value that is not already sorted / pair with equal length; distinct by the sequence(s)")
@@ -80,8 +80,12 @@ class C20:
         n_exh = len(seqs)
         for _ in range(200 if tier == "quick" else 3000):
             n = rng.randint(2, 24)
-            big = rng.choice([6, 100, 2 ** 20, 2 ** 40])
+            big = rng.choice([6, 100, 2 ** 20, 2 ** 40, 2 ** 64])
             s = [rng.randrange(big) for _ in range(n)]
+            if rng.random() < 0.4:
+                # boundary values of std::size_t (a pivot of SIZE_MAX, 2^63, 2^32 +- 1, 0)
+                for _ in range(rng.randint(1, 3)):
+                    s[rng.randrange(n)] = rng.choice([2 ** 64 - 1, 2 ** 64 - 2, 2 ** 63, 2 ** 63 - 1, 2 ** 32, 2 ** 32 - 1, 0, 1])
             if rng.random() < 0.5:
                 s += [rng.choice(s) for _ in range(rng.randint(1, 4))]   # force repeated values
                 rng.shuffle(s)
@@ -112,7 +116,9 @@ class C20:
             pairs = [p for p in pairs if rng.random() < 0.10]
         for _ in range(300 if tier == "quick" else 3000):
             n = rng.randint(1, 12)
-            a = [rng.randrange(rng.choice([3, 50, 2 ** 33])) for _ in range(n)]
+            a = [rng.randrange(rng.choice([3, 50, 2 ** 33, 2 ** 64])) for _ in range(n)]
+            if rng.random() < 0.3:
+                a[rng.randrange(n)] = rng.choice([2 ** 64 - 1, 2 ** 64 - 2, 2 ** 63, 0])
             b = list(a)
             rng.shuffle(b)
             k = rng.random()
